@@ -125,8 +125,22 @@ static void blk_crafted_cbc(void) {
 		size_t bl = 16 + 16 * nb; uint8_t *rec = (uint8_t *)malloc(5 + bl); rec[0] = 23; rec[1] = 1; rec[2] = 1; rec[3] = (uint8_t)(bl >> 8); rec[4] = (uint8_t)bl; memcpy(rec + 5, iv, 16); sm4_cbc_encrypt_blocks(&ek, ivc, pt, nb, rec + 21);
 		uint8_t *out = (uint8_t *)malloc(5 + bl); size_t ol = 0; int r = tls_record_decrypt(&hm, &dk, seq, rec, 5 + bl, out, &ol); vh_evals++; vh_nontriv++; if (r == 1 && ol > 5 + bl) vh_viol("C06:crafted-cbc:length-larger-than-the-record", "\"blocks\":%zu,\"pad\":%d,\"outlen\":%zu", nb, v, ol); free(out);
 		uint8_t *o2 = (uint8_t *)malloc(bl); size_t o2l = 0; uint8_t hdr[5] = { 23, 1, 1, (uint8_t)(bl >> 8), (uint8_t)bl }; tls_cbc_decrypt(&hm, &dk, seq, hdr, rec + 5, bl, o2, &o2l); vh_evals++; free(o2); free(rec); } }
+/* authentic TLS 1.3 records (made with the real key) whose INNER plaintexts are chosen: all zeros (no content type at all) of several lengths, and
+   content || type || zeros for every type octet; the decryptor works on exact-size heap buffers, so a scan that runs off the front of the
+   plaintext, or a length that wraps, is a sanitizer report; a reported length larger than the ciphertext is a violation */
+static void blk_crafted_gcm(void) {
+	if (!vh_block_begin("crafted-tls13-inner-plaintexts")) return; BLOCK_CIPHER_KEY bk; uint8_t k[16], iv[12], seq[8] = { 0, 0, 0, 0, 0, 0, 0, 2 }; for (int i = 0; i < 16; i++) k[i] = (uint8_t)(0x51 + i); for (int i = 0; i < 12; i++) iv[i] = (uint8_t)(0x90 + i); if (block_cipher_set_encrypt_key(&bk, BLOCK_CIPHER_sm4(), k) != 1) vh_harness_error("gcm key");
+	static const size_t ZL[] = { 0, 1, 2, 15, 16, 17, 100, 1000 }; static uint8_t zeros[1024], enc[1200];
+	for (int t = 0; t < 256; t++) for (int z = 0; z < 8; z++) for (int cl = 0; cl < 2; cl++) { if (!vh_next()) continue; if (t == 0 && cl) continue; size_t el = 0; uint8_t content[4] = { 0x41, 0x42, 0x43, 0x44 };
+		/* type 0 with zero content and padding => an inner plaintext made of zeros only; other types: 0 or 4 content octets, the type, ZL zeros */
+		if (tls13_gcm_encrypt(&bk, iv, seq, t, t ? content : zeros, t ? (cl ? 4 : 0) : ZL[z], t ? ZL[z] : 0, enc, &el) != 1) continue;
+		uint8_t *in = (uint8_t *)malloc(el ? el : 1), *out = (uint8_t *)malloc(el ? el : 1); memcpy(in, enc, el); int rt = -1; size_t ol = 0; int r = tls13_gcm_decrypt(&bk, iv, seq, in, el, &rt, out, &ol); vh_evals++; vh_nontriv++;
+		if (r == 1 && ol > el) vh_viol("C06:crafted-tls13:length-larger-than-the-record", "\"type\":%d,\"zeros\":%zu,\"outlen\":%zu,\"reclen\":%zu", t, ZL[z], ol, el);
+		if (r == 1 && t == 0) vh_viol("C06:crafted-tls13:record-without-a-content-type-accepted", "\"zeros\":%zu,\"reported_type\":%d,\"outlen\":%zu", ZL[z], rt, ol);
+		free(in); free(out); }
+}
 static void blk_cross(void) { if (!vh_block_begin("cross-type")) return; for (int i = 0; i < NSEEDS; i++) for (int j = 0; j < NSEEDS; j++) { if (SEEDS[j].c == SEEDS[i].c) continue; int dup = 0; for (int k = 0; k < j; k++) if (SEEDS[k].c == SEEDS[j].c) dup = 1; if (dup) continue; if (!vh_next()) continue; feed(&SEEDS[j], SEEDS[i].d, SEEDS[i].n); } }
-static void body(void) { for (int i = 0; i < NSEEDS; i++) { char bn[64]; snprintf(bn, sizeof bn, "seed-%s", SEEDS[i].name); if (!vh_block_begin(bn)) continue; if (vh_deadline_hit()) { vh_capped = 1; continue; } mutate_seed(&SEEDS[i]); vh_sample("{\"seed\":\"%s\",\"bytes\":%zu,\"der\":%d}", SEEDS[i].name, SEEDS[i].n, SEEDS[i].der); } blk_capacity(); blk_crafted_cbc(); blk_cross(); }
+static void body(void) { for (int i = 0; i < NSEEDS; i++) { char bn[64]; snprintf(bn, sizeof bn, "seed-%s", SEEDS[i].name); if (!vh_block_begin(bn)) continue; if (vh_deadline_hit()) { vh_capped = 1; continue; } mutate_seed(&SEEDS[i]); vh_sample("{\"seed\":\"%s\",\"bytes\":%zu,\"der\":%d}", SEEDS[i].name, SEEDS[i].n, SEEDS[i].der); } blk_capacity(); blk_crafted_cbc(); blk_crafted_gcm(); blk_cross(); }
 /* ---------------- seeds ---------------- */
 #include "vnet.h"
 #include "tlsh.h"
